@@ -85,9 +85,19 @@ def addKeyData (c : CryptoOps) (ν : Nonces) (master path : Bytes) (seq : Int) (
     else (c.enc master (symCtx path seq) d.sym (ν (symCtx path seq) d.sym)).map fun e => ⟨fmtSym, [], [], e⟩
   else none
 
-/-- `copyKey`: cryptoperiod check, at least one data item, formats pairwise different (the
-`ErrFormatDuplicated` check of `addKeyData`), every item re-encrypted for the target ring -/
+def stDestroyed : Nat := 6
+
+/-- `copyKey`: cryptoperiod check, at least one data item unless the key is destroyed (a destroyed
+key has no data by construction; the pinned tree refused it, see `copyKeyPinned`), formats pairwise
+different (the `ErrFormatDuplicated` check of `addKeyData`), every item re-encrypted for the target ring -/
 def copyKey (c : CryptoOps) (ν : Nonces) (master path : Bytes) (k : Key) : Option Key :=
+  if k.since > k.until_ then none
+  else if k.data = [] ∧ k.state ≠ stDestroyed then none
+  else if ¬ (k.data.map (·.format)).Nodup then none
+  else (k.data.mapM (addKeyData c ν master path k.seq)).map fun ds => { k with data := ds }
+
+/-- `copyKey` as on the pinned tree: every key without data is refused, destroyed ones included -/
+def copyKeyPinned (c : CryptoOps) (ν : Nonces) (master path : Bytes) (k : Key) : Option Key :=
   if k.since > k.until_ then none
   else if k.data = [] then none
   else if ¬ (k.data.map (·.format)).Nodup then none
@@ -218,6 +228,20 @@ def exportBundle (c : CryptoOps) (cd : Codec) (s : Store) (wp : Bool) (paths : L
 /-- `importASN1` on a ring object for `path`: all keys copied, then `txSetKeys` -/
 def importASN1 (c : CryptoOps) (ν : Nonces) (master path : Bytes) (x : Ring) : Option Ring :=
   (x.keys.mapM (copyKey c ν master path)).map fun ks => ⟨path, ks, x.current⟩
+
+/-- `importASN1` on the pinned tree -/
+def importASN1Pinned (c : CryptoOps) (ν : Nonces) (master path : Bytes) (x : Ring) : Option Ring :=
+  (x.keys.mapM (copyKeyPinned c ν master path)).map fun ks => ⟨path, ks, x.current⟩
+
+/-- `importKeyRing` on the pinned tree -/
+def importKeyRingPinned (c : CryptoOps) (ν : Nonces) (s : Store) (x : Ring) : Store × Bool :=
+  match s.get x.purpose with
+  | some _ => (s, false)
+  | none =>
+    let s1 := s.put x.purpose ⟨x.purpose, [], -1⟩
+    match importASN1Pinned c ν s.master x.purpose x with
+    | none => (s1, false)
+    | some r => (s1.put x.purpose r, true)
 
 /-- `importKeyRing` with the default delegate; returns the store and whether it succeeded.
 A failure in `importASN1` happens *after* `openKeyRing` created the (empty) ring. -/
